@@ -210,6 +210,21 @@ CHECKS = {
          'member after all attempts ended, raises, leaves the swarm closed and re-openable; second open refused.',
          'members are stand-ins (the statement is about Swarm); argument dictionaries lacking a member entry are outside the statement',
          'DESIGN.md §3 C19', 'E3'),
+ 'C17': ('exploration',
+         'exhaustive enumeration of motion programs up to a length bound with deviation-bounded exploration of setpoint-thread schedules in virtual time',
+         'The real MotionCommander (with its setpoint thread) and PositionHlCommander run on a recording Crazyflie stub under '
+         'the controlled scheduler with virtual time. Every program of up to 2 (thorough 3) primitives from an alphabet of 26 '
+         'MotionCommander and 15 PositionHlCommander primitives (all directions, distances, velocities, turns, circles, '
+         'start_*/stop, go_to, default and landing-height changes), in context-manager and explicit form, with an exception '
+         'raised at every position of the body, is explored with every schedule of at most 2 (thorough 3; length-3 programs '
+         '1) deviations. Oracle on the time-stamped command log: ends with stop (then setpoint-priority release) and '
+         'nothing afterwards, the body\'s exception is the one that propagates, hover setpoints at most one period apart '
+         'carrying the commanded velocities and the integrated height, velocity x duration = requested displacement / '
+         'angle / arc in the documented direction, reported position = start + sum of displacements, go-to target and '
+         'duration = distance / velocity.',
+         'recording stub in place of Crazyflie; directions as documented (+x forward, +y left, +z up, positive yaw rate = '
+         'left); the (up to one period stale) height used for landing is not judged',
+         'DESIGN.md §3 C17', 'E3'),
 }
 
 ALL = ['C%02d' % i for i in range(1, 21)]
